@@ -299,3 +299,11 @@ def run(ctx):
     ctx.trusted += ["Coq 8.16.1 kernel + vm_compute", "coq/C01/VyCore.v as the reading of the language reference (oracle)",
                     "pyrevm (EVM)", "eth_abi (expected ABI bytes)"]
     ctx.assumptions += ["theorems are about the reference semantics; the compiler is tied to it only for the generated programs"]
+
+
+def prebuild(ctx):
+    """Called by setup_cmd: compile the static development once (content-keyed), so that the check itself only compiles the
+    per-run generated sample file and the small Props file depending on it."""
+    ctx.coq_build_cached(COQ_FILES)
+    c03 = ["C03/LIR.v", "C03/ArithSpec.v", "C03/WordArith.v", "C03/TypeLemmas.v", "C03/ArithModel.v", "C03/LegacyExact.v", "C03/TieBase.v"]
+    ctx.coq_build_cached(["C01/ExprCompile.v", "C01/ExprCompileProofs.v", "C01/ExprBridge.v"], deps=c03 + ["C01/VyCore.v"])
